@@ -13,8 +13,8 @@
 (* accepted prefix).  KfacRef's temporal properties are evaluated on the   *)
 (* accepted behaviour as well.                                             *)
 (*                                                                         *)
-(* event = [act, arg, raised, ndec, steps, chA, chG, accA, accG, hasInv,   *)
-(*          uniform]                                                       *)
+(* event = [act, arg, raised, ndec, steps, chA, chG, accA, accG, accKnown,  *)
+(*          hasInv, uniform]                                               *)
 (***************************************************************************)
 EXTENDS KFACREF_INSTANCE
 
@@ -35,8 +35,8 @@ ObsOK ==
     /\ steps' = E.steps
     /\ (aFac' # aFac) <=> E.chA
     /\ (gFac' # gFac) <=> E.chG
-    /\ (aAcc' # <<>>) <=> E.accA
-    /\ (gAcc' # <<>>) <=> E.accG
+    /\ E.accKnown => ((aAcc' # <<>>) <=> E.accA)
+    /\ E.accKnown => ((gAcc' # <<>>) <=> E.accG)
     /\ inv'.has <=> E.hasInv
 
 TTrain   == E.act = "train"   /\ ~E.raised /\ Train(1) /\ ObsOK /\ E.ndec = 0
@@ -52,7 +52,7 @@ ObsLoad ==
     /\ steps' = E.steps
     /\ aFac'.has <=> E.chA
     /\ gFac'.has <=> E.chG
-    /\ ~E.accA /\ ~E.accG
+    /\ E.accKnown => (~E.accA /\ ~E.accG)
     /\ inv'.has <=> E.hasInv
 TLoad    == E.act = "load"    /\ ~E.raised /\ Load(E.arg) /\ ObsLoad
                               /\ ((E.ndec > 0) <=> inv'.has)
